@@ -463,8 +463,8 @@ def ordered_family_with_prev(draw, tier):
 
 
 @st.composite
-def program_with_prev(draw, tier="quick", max_sites=3, **kw):
-    n = draw(st.integers(1, max_sites))
+def program_with_prev(draw, tier="quick", max_sites=3, min_sites=1, **kw):
+    n = draw(st.integers(min_sites, max_sites))
     sites = [draw(site_with_prev(tier, **kw)) for _ in range(n)]
     if n > 1 and draw(st.booleans()):
         cut = draw(st.integers(1, n - 1))
